@@ -1,6 +1,6 @@
 import Clover.Model.Msgpack
 import Clover.Proofs.SetAllOrder
-import Clover.Props.C11
+import Clover.Proofs.WireRT
 /-! # The byte-level msgpack codec inverts itself (C11 at byte level)
 
 Model: `Clover/Model/Msgpack.lean` (`encWire`/`decWire`, `encDocBytes`/`decDocBytes`).
@@ -830,7 +830,7 @@ theorem decDoc_encDoc (d : Doc) (hok : WireOK (.obj (encodeDoc d))) (hs : DocSor
   rw [List.append_nil, normW_sorted _ hw] at h
   rw [decDocBytes, encDocBytes, h]
   dsimp only
-  rw [Props.C11.decode_encode]
+  rw [decodeDoc_encodeDoc]
 
 /-- the same with the stricter decoder that rejects trailing bytes -/
 theorem decDocStrict_encDoc (d : Doc) (hok : WireOK (.obj (encodeDoc d))) (hs : DocSorted d) :
@@ -841,7 +841,7 @@ theorem decDocStrict_encDoc (d : Doc) (hok : WireOK (.obj (encodeDoc d))) (hs : 
   rw [List.append_nil, normW_sorted _ hw] at h
   rw [decDocBytesStrict, encDocBytes, h]
   dsimp only
-  rw [Props.C11.decode_encode]
+  rw [decodeDoc_encodeDoc]
 
 /-- like Go's `Unmarshal`, `decDocBytes` ignores whatever follows the document -/
 theorem decDoc_encDoc_trailing (d : Doc) (hok : WireOK (.obj (encodeDoc d))) (hs : DocSorted d)
@@ -852,7 +852,7 @@ theorem decDoc_encDoc_trailing (d : Doc) (hok : WireOK (.obj (encodeDoc d))) (hs
   rw [normW_sorted _ hw] at h
   rw [decDocBytes, encDocBytes, h]
   dsimp only
-  rw [Props.C11.decode_encode]
+  rw [decodeDoc_encodeDoc]
 
 
 /-! ## 4. the decoder does not depend on the order in which a map's entries were written -/
@@ -966,7 +966,7 @@ theorem decDoc_encDoc_shuffle (d : Doc) (hs : DocSorted d) (w' : Wire) (h' : Wir
   rw [List.append_nil, e, normW_sorted _ hw] at h
   rw [decDocBytes, h]
   dsimp only
-  rw [Props.C11.decode_encode]
+  rw [decodeDoc_encodeDoc]
 
 
 /-! ## the decoder's maps, seen as documents -/
